@@ -39,8 +39,10 @@ MATCHES = {
   "ALL": {},
 }
 VARIANTS = {"plain": (0, 0, 0), "overlap": (W.OFPFF_CHECK_OVERLAP, 0, 0),
-            "rem-idle": (W.OFPFF_SEND_FLOW_REM, 2, 0), "rem-hard": (W.OFPFF_SEND_FLOW_REM, 0, 3)}
-COOKIE = {"plain": 1, "overlap": 2, "rem-idle": 3, "rem-hard": 4, "mod": 9}
+            "rem-idle": (W.OFPFF_SEND_FLOW_REM, 2, 0), "rem-hard": (W.OFPFF_SEND_FLOW_REM, 0, 3),
+            # actions that change the frame's length before the output (byte counters count the frame as received)
+            "tag": (0, 0, 0)}
+COOKIE = {"plain": 1, "overlap": 2, "rem-idle": 3, "rem-hard": 4, "tag": 5, "mod": 9}
 
 
 def wire_match (m):
@@ -162,7 +164,8 @@ class World (object):
       if k == "add":
         _, mid, prio, v = op
         flags, idle, hard = VARIANTS[v]
-        st.feed(W.flow_mod(x, wire_match(MATCHES[mid]), W.OFPFC_ADD, W.a_output(2, 0), priority=prio, idle=idle, hard=hard,
+        acts = (W.a_set_vlan_vid(5) + W.a_output(2, 0)) if v == "tag" else W.a_output(2, 0)
+        st.feed(W.flow_mod(x, wire_match(MATCHES[mid]), W.OFPFC_ADD, acts, priority=prio, idle=idle, hard=hard,
                            cookie=COOKIE[v], flags=flags))
         exp = ref.add(now, MATCHES[mid], prio, (2,), flags, idle, hard, COOKIE[v])
       elif k == "add-emerg":
@@ -298,7 +301,7 @@ def run (cfg):
   rep = Report(PID, "model_checking")
   depth = cfg.pick(3, 4)
   rep.rule = ("breadth-first search, every reachable table state expanded once, over histories of <=%d operations (from the empty table; one less from four populated tables) from %d: "
-              "ADD x matches {in_port=1; in_port=1,dl_type=IP; dl_type=IP; exact} x priority {1,2} x {plain, CHECK_OVERLAP, "
+              "ADD x matches {in_port=1; in_port=1,dl_type=IP; dl_type=IP; exact} x priority {1,2} x {plain, CHECK_OVERLAP, set_vlan_vid+output, "
               "SEND_FLOW_REM+idle 2, SEND_FLOW_REM+hard 3}, ADD+EMERG, MODIFY, MODIFY_STRICT, DELETE, DELETE_STRICT, DELETE with "
               "out_port filter, a frame hitting all four matches, a frame hitting only dl_type=IP, clock +1.1 / +2.1, expiry sweep; "
               "after every operation the table is read back with a flow-stats request and compared with the reference state machine, "
